@@ -11,6 +11,7 @@ import (
 type Interner struct {
 	ids   map[string]int64
 	names []string
+	stampSlack int64 // extra seconds a fresh taint stamp may be after the scan instant (scans that sleep before acting)
 }
 
 var reserved = []string{
